@@ -11,6 +11,10 @@ Monitor : the property statement: own token or an exception; TransportError carr
           EVERY non-200 reply the call actually received (whatever its code in {201 … 503}, with or without a length,
           whatever its body looks like: text, a JSON-RPC result for this call, for another call, an error object);
           never a foreign token; after the faults stop at most one further call — the first — fails.
+          Replies are also delivered IN PIECES (family `q`, see harness/peer.py): the peer pauses after the status line, after
+          the header block, inside the body, before surplus bytes and after informational 1xx responses, each pause lasting
+          until the client has acted (returned, or blocked reading) — so bytes of an exchange can reach the connection after
+          the client has finished with it.  Every healthy call after such a fault must still return its own token.
 """
 import http.client
 import itertools
@@ -30,6 +34,8 @@ REQUIRED_THEOREMS = [
     "C19_transport_error", "C19_error_codes_not_success", "C19_healthy_stays", "C19_first_after_faults", "C19_recovery",
     "C19_recovery_after_faults_partial", "C19_recovery_tight",
     "C19_gen_closeOnError", "C19_gen_successStatus", "C19_gen_raisesTransportError", "C19_gen_libSwitches", "C19_gen_emptyBodyNone",
+    "C19_gen_responseNotClosedUnread", "C19_split_transport_error", "C19_split_informational", "C19_split_cut_short_raises_incomplete",
+    "C19_split_late_body_is_consumed", "C19_split_early_hints_then_final", "C19_split_extends",
 ]
 
 # status codes of replies with a body (the property: "non-200 status with or without a body"); 204/304 are bodiless
@@ -37,15 +43,90 @@ ERR_CODES = [201, 202, 206, 301, 302, 400, 401, 403, 404, 500, 502, 503]
 BODY_KINDS = ["", "o", "f", "e"]  # text / own result / another token's result / error object
 BODILESS = [204, 304]
 # behaviour families of the property's alphabet (+ surplus bytes and hidden replies); instantiated per use
-FAMILIES = ["ok", "okc", "down", "cbr", "rst", "sl", "snl", "bl", "blz", "trunc", "empty", "nonjson", "xn", "sx", "sy", "sz"]
+FAMILIES = ["ok", "okc", "down", "cbr", "rst", "sl", "snl", "bl", "blz", "trunc", "empty", "nonjson", "xn", "sx", "sy", "sz", "q"]
 UNREAD = ("bl", "sy", "sz", "xl")  # families that leave something unread (or an unread response) on a kept-alive connection
 TAIL = 3  # healthy calls appended to every script
 NON200 = re.compile(r"^(snl|sl|blz|bl|sx|sy|sz)(\d+)")
 
 
+# healthy exchanges delivered in pieces (after `100 Continue`, cut after the status line / the headers / inside the body)
+HEALTHY_SPLIT = ["q_ok_=_h", "q_ok_=_lb", "qC_ok_=_", "qc_ok_=_lhb", "q_ok_=_b"]
+Q_BODY_KINDS = ["", "o", "f", "e", "h"]  # h: the body of the non-200 reply is itself a complete HTTP 200 reply (another token)
+Q_CUTS = ["", "l", "h", "b", "lh", "lb", "hb", "lhb"]
+Q_INFOS = ["", "c", "C", "e", "E", "p", "P"]
+
+
 def family(beh):
+    if peermod.parse_q(beh) is not None:
+        return "q"
     m = re.match(r"^(snl|sl|blz|bl|xn|xl|sx|sy|sz)\d", beh)
     return m.group(1) if m else beh
+
+
+def q_facts(beh):
+    """What a reply delivered in pieces shows the client, from its description alone (HTTP semantics, not the model):
+    codes   : the non-200 statuses the client may report (the first informational response that is not `100 Continue` -
+              http.client hands it to the caller - and the final status when it is not 200);
+    cut_short: the body is shorter than the announced length and the peer closes (the reply is ALSO a truncated one);
+    unread  : what the reply leaves on a kept-alive connection once the client has finished with the exchange
+              ("pending": an unread bodiless/informational response, "junk": surplus bytes sent after a pause), or None;
+    classes : histogram keys of the input classes the reply belongs to."""
+    q = peermod.parse_q(beh)
+    if q is None:
+        return None
+    kind, code, bk = q["final"]
+    other = [c for (c, _r, _cut) in q["infos"] if c != 100]
+    codes = ([other[0]] if other else []) + ([code] if code != 200 else [])
+    unread = None
+    if other or (kind == "b" and q["delta"] == "n"):
+        unread = "pending"
+    elif q["delta"] == "~":
+        unread = "junk"
+    classes = []
+    if kind == "s" and ("h" in q["cuts"] or "b" in q["cuts"]):
+        classes.append("non200-body-after-headers")
+    if q["infos"]:
+        classes.append("informational-then-final" + ("-late" if any(cut for (_c, _r, cut) in q["infos"]) else ""))
+    if q["delta"] in "+~":
+        classes.append("body-longer-than-length" + ("-late" if q["delta"] == "~" else ""))
+    if q["delta"] == "-":
+        classes.append("body-shorter-than-length")
+    if "l" in q["cuts"]:
+        classes.append("cut-after-status-line")
+    if "h" in q["cuts"]:
+        classes.append("cut-after-headers")
+    if "b" in q["cuts"]:
+        classes.append("cut-inside-body")
+    if bk == "h":
+        classes.append("body-looks-like-http-reply")
+    if kind == "ok":
+        classes.append("final-200")
+    closes = q["delta"] == "-" or (q["delta"] == "n" and kind == "s")
+    return {"codes": codes, "final200": code == 200, "cut_short": q["delta"] == "-" and not other, "unread": unread,
+            "classes": classes, "healthy": kind == "ok" and q["delta"] == "=" and not other,
+            # an unread response on a connection the peer then closes: whether the next call notices the dead socket
+            # (while sending: retried) or the unread response (ResponseNotReady) first is kernel timing - not generated
+            "dead_and_unread": unread == "pending" and closes}
+
+
+def instantiate_q(rng):
+    while True:
+        b = _instantiate_q(rng)
+        if not q_facts(b)["dead_and_unread"]:
+            return b
+
+
+def _instantiate_q(rng):
+    infos = "" if rng.random() < 0.5 else "".join(rng.choice("cCpPeE") for _ in range(rng.randint(1, 2)))
+    r = rng.random()
+    if r < 0.2:
+        final, delta = "ok", rng.choice("==+~-")
+    elif r < 0.85:
+        final, delta = "s%d%s" % (rng.choice(ERR_CODES), rng.choice(Q_BODY_KINDS)), rng.choice("===+~-n")
+    else:
+        final, delta = "b%d" % rng.choice(BODILESS), rng.choice("=n")
+    cuts = rng.choice(Q_CUTS + ["h", "h", "hb"])
+    return "q%s_%s_%s_%s" % (infos, final, delta, cuts)
 
 
 def instantiate(fam, rng, i):
@@ -60,6 +141,8 @@ def instantiate(fam, rng, i):
         return "%s%d" % (fam, rng.choice(ERR_CODES))
     if fam == "sz":
         return "sz%d_%d" % (rng.choice(ERR_CODES), peermod.FOREIGN + i)
+    if fam == "q":
+        return instantiate_q(rng)
     return fam
 
 
@@ -87,14 +170,19 @@ def classify(kind, val, J):
     return "o:%s" % type(val).__name__
 
 
-def wait_late_bytes(proxy):
-    """The peer has sent late bytes: wait until they sit in the client's socket (so that the next call sees them)."""
+def client_socket(proxy):
+    """The socket of the proxy's cached connection (None when there is none)."""
     try:
         conn = proxy("transport")._connection[1]
-        sock = getattr(conn, "sock", None)
+        return getattr(conn, "sock", None)
     except Exception:
-        sock = None
-    if sock is None:
+        return None
+
+
+def wait_late_bytes(proxy):
+    """The peer has sent late bytes: wait until they sit in the client's socket (so that the next call sees them)."""
+    sock = client_socket(proxy)
+    if sock is None or sock.fileno() < 0:
         return
     r, _, _ = select.select([sock], [], [], peermod.QUIESCE_TIMEOUT)
     if not r:
@@ -109,6 +197,7 @@ def run_script(kind, scripts, tmpdir, J, cfg, tail=TAIL):
     unsolicited = False  # an out-of-alphabet unsolicited reply (xl) has been sent in this session
     try:
         proxy = J.ServerProxy(p.url(), config=cfg)
+        p.client_sock = lambda: client_socket(proxy)
         url_part = ("127.0.0.1:%d/rpc" % p.port) if kind == "tcp" else "/"
         for i, script in enumerate(scripts):
             p.begin_call(i, script)
@@ -133,7 +222,21 @@ def run_script(kind, scripts, tmpdir, J, cfg, tail=TAIL):
             # unless unread late bytes preceded that answer on the connection (shadowed) or the client refused to read
             # (an unread earlier response: http-state)
             mine = [(b, sh) for (t, b, sh) in list(p.seen) if t == i]
-            if mine and not mine[-1][1] and c != "o:http-state":
+            qf = q_facts(mine[-1][0]) if mine else None
+            if qf is not None and not mine[-1][1] and c != "o:http-state":
+                # a reply delivered in pieces: a status other than 200 that the client was shown => TransportError with it
+                how = ("returned %r" % (v,)) if k == "ok" else ("raised %s" % type(v).__name__)
+                if qf["cut_short"] and qf["codes"]:
+                    # the non-200 reply is also a truncated one (two faults of the alphabet at once): an exception, whichever
+                    if k == "ok":
+                        viol.append("call %d was answered with status %d and a body cut short (%s) but %s" % (i, qf["codes"][0], mine[-1][0], how))
+                    elif not c.startswith("te"):
+                        notes.append("cut-short: call %d: status %d with a body shorter than announced, then close (%s): %s, not TransportError"
+                                     % (i, qf["codes"][0], mine[-1][0], how))
+                elif qf["codes"] and not (c.startswith("te") and int(c[2:]) in qf["codes"]) and not (qf["final200"] and c == "r%d" % i):
+                    viol.append("call %d was answered with status %s (%s) but %s instead of TransportError(%s)"
+                                % (i, "/".join(map(str, qf["codes"])), mine[-1][0], how, qf["codes"][0]))
+            elif mine and not mine[-1][1] and c != "o:http-state":
                 m = NON200.match(mine[-1][0])
                 if m:
                     code = int(m.group(2))
@@ -160,13 +263,16 @@ def excluded(sc):
     """Sessions whose outcome depends on kernel timing (both outcomes are exceptions and both recover), not generated:
     a connection with unread bytes / an unread response whose peer then goes down (dead socket noticed while
     sending, or the unread data noticed first), and unread surplus bytes followed by a reset (TCP: ECONNRESET and a
-    retry; Unix sockets know no reset: BadStatusLine)."""
+    retry; Unix sockets know no reset: BadStatusLine); likewise a reply in pieces that leaves an unread informational
+    response on a connection the peer then closes (q_facts: dead_and_unread)."""
+    if any((q_facts(x) or {}).get("dead_and_unread") for call in sc for x in call):
+        return True
     for a, b in zip(sc, sc[1:]):
         if not a or not b:
             continue
-        if any(family(x) in UNREAD for x in a) and b[0] == "down":
+        if any(family(x) in UNREAD or (q_facts(x) or {}).get("unread") for x in a) and b[0] == "down":
             return True
-        if any(family(x) in ("sy", "sz") for x in a) and b[0] == "rst":
+        if any(family(x) in ("sy", "sz") or (q_facts(x) or {}).get("unread") == "junk" for x in a) and b[0] == "rst":
             return True
     return False
 
@@ -186,7 +292,12 @@ def run(ctx):
                 "on a fresh scripted peer + fresh ServerProxy per script, over TCP and over a Unix socket; quick: every single "
                 "(code, body kind, length) combination, every pair of families, random scripts of length <= 8; thorough: all "
                 "triples of families plus random to length 12; a few sessions with an unsolicited complete reply (outside the "
-                "alphabet) validate the unread-data part of the environment model; distinct_nontrivial = distinct scripts in "
+                "alphabet) validate the unread-data part of the environment model; family q = replies delivered in pieces "
+                "(informational 100/102/103 responses first; pauses after the status line, after the header block, inside the body, "
+                "before surplus bytes, each lasting until the client has returned or blocks reading; body as long as / longer / "
+                "shorter than the announced length, or no length; non-200 bodies that are themselves complete HTTP replies): every "
+                "(final, delta) with every single cut and with every informational prefix, in first position and after a healthy "
+                "call, the healthy tail itself partly delivered in pieces; distinct_nontrivial = distinct scripts in "
                 "which a fault is followed by a healthy call" % (FAMILIES, ERR_CODES, TAIL))
     old_to = socket.getdefaulttimeout()
     socket.setdefaulttimeout(30)
@@ -200,7 +311,7 @@ def run(ctx):
         return [[instantiate(f, rng, i) if f in FAMILIES or f == "xl" else f for f in call] for i, call in enumerate(fam_script)]
 
     def tails():
-        return [rng.choice([[], [], ["ok"], ["okc"]]) for _ in range(TAIL)]
+        return [rng.choice([[], [], ["ok"], ["okc"], [rng.choice(HEALTHY_SPLIT)]]) for _ in range(TAIL)]
 
     try:
         sessions = []  # (script, tail length)
@@ -212,6 +323,20 @@ def run(ctx):
         for code in BODILESS:
             sessions.append(([["bl%d" % code]], TAIL))
             sessions.append(([["blz%d" % code]], TAIL))
+        # replies delivered in pieces: every (final, delta) x every cut set with one or all cuts x {no informational
+        # response, each single one}; alone and after a healthy keep-alive call (a cached connection)
+        q_finals = [("ok", "=+~-"), ("s%d" % rng.choice(ERR_CODES), "=+~-n"), ("s%dh" % rng.choice([400, 404, 500, 502, 503]), "=+~-n"),
+                    ("s%d%s" % (rng.choice(ERR_CODES), rng.choice("ofe")), "=~n"), ("b%d" % rng.choice(BODILESS), "=n")]
+        qn = 0
+        for final, deltas in q_finals:
+            for delta in deltas:
+                variants = [("", cuts) for cuts in ("", "l", "h", "b", "lhb")] + [(inf, "h") for inf in Q_INFOS[1:]]
+                if ctx.thorough:
+                    variants = [(inf, cuts) for inf in Q_INFOS + ["cE", "Cp", "CC"] for cuts in Q_CUTS]
+                for infos, cuts in variants:
+                    b = "q%s_%s_%s_%s" % (infos, final, delta, cuts)
+                    sessions.append(([[b]] if qn % 2 == 0 else [["ok"], [b]], TAIL))
+                    qn += 1
         single = [[b] for b in FAMILIES] + [[b, "ok"] for b in ("cbr", "rst")] + [["cbr", "cbr"], ["rst", "cbr"], ["cbr", "down"],
                                                                                    ["cbr", "sl"], ["rst", "trunc"], ["cbr", "bl"],
                                                                                    ["cbr", "sy"], ["rst", "sz"], ["cbr", "xn"]]
@@ -256,13 +381,20 @@ def run(ctx):
                 outs, viol, notes = run_script(kind, full, tmpdir, J, cfg, tail=tail)
                 for m in viol:
                     ctx.violate({"transport": kind, "script": full, "tail": tail}, m, key=m.split(":")[0][:40])
-                outside += len(notes)
+                outside += len([n for n in notes if not n.startswith("cut-short")])
                 lines.append("net %s " % lib + " / ".join(" ".join(c) for c in full))
                 impl_out.append(" ".join(outs))
                 fault_then_ok = any((c and c[0] not in ("ok",)) for c in sc)
                 ctx.count(case_repr={"transport": kind, "script": full, "outcomes": outs},
                           nontrivial_key=(json.dumps(sc)) if fault_then_ok else None,
                           kind="%s/len%d" % (kind, len(sc)))
+                for call in full:
+                    for b in call:
+                        for cl in (q_facts(b) or {}).get("classes", []):
+                            ctx.hist["q/" + cl] += 1
+                for n in notes:
+                    if n.startswith("cut-short"):
+                        ctx.hist["q/non200-cut-short-raised-other-than-TransportError"] += 1
                 for call in sc:
                     for b in call:
                         ctx.hist["beh/" + family(b)] += 1
@@ -270,6 +402,8 @@ def run(ctx):
                         if m:
                             ctx.hist["status/%s" % m.group(2)] += 1
         ctx.extra["foreign_results_after_unsolicited_reply_outside_alphabet"] = outside
+        ctx.extra["non200_replies_cut_short_raising_IncompleteRead_not_TransportError"] = ctx.hist.get(
+            "q/non200-cut-short-raised-other-than-TransportError", 0)
     finally:
         socket.setdefaulttimeout(old_to)
         shutil.rmtree(tmpdir, ignore_errors=True)
@@ -282,7 +416,13 @@ def run(ctx):
                            "disconnect-class error on first use; unread bodiless response => ResponseNotReady; read-ahead discarded with "
                            "the response; late unread bytes parsed first by the next getresponse) is assumed by the theorems and validated "
                            "by this correspondence; RST/FIN timing inside the kernel cannot be exhibited by the model (sessions whose "
-                           "outcome depends on it are not generated: see c19.excluded)")
+                           "outcome depends on it are not generated: see c19.excluded); a pause of the scripted peer inside a reply ends "
+                           "when the client's call has returned or its thread sits in socket.SocketIO.readinto on an empty socket "
+                           "(three consecutive looks, 1 ms apart)")
+    ctx.assumptions.append("reading of the property for a non-200 reply whose body ends before the announced Content-Length because the "
+                           "peer closes (non-200 AND truncated): any exception is accepted; the code raises http.client.IncompleteRead "
+                           "(from response.read(), outside the close-on-error handler), not TransportError - theorem "
+                           "C19_split_cut_short_raises_incomplete; occurrences are counted in the evidence")
     ctx.assumptions.append("the peer never leaves a complete unsolicited reply at the head of a kept-alive connection (Beh.framed): the "
                            "library does not compare reply ids, such a reply is returned by the next call (shown on real sockets, "
                            "theorem C19_unsolicited_reply_is_returned); this behaviour is outside the property's fault alphabet")
@@ -305,6 +445,10 @@ def replay(payload):
     finally:
         shutil.rmtree(tmpdir, ignore_errors=True)
     print("outcomes:", outs)
+    for i, call in enumerate(case["script"]):
+        for b in call:
+            if q_facts(b) is not None:
+                print("call %d: reply delivered in pieces %s: %r" % (i, b, peermod.parse_q(b)))
     for n in notes:
         print("note:", n)
     for v in viol:
